@@ -82,7 +82,7 @@ func (s Sel) String() string {
 		return out + "]"
 	case "rec":
 		l := "none"
-		if s.Limit >= 0 {
+		if s.Limit != -1 {
 			l = strconv.FormatInt(s.Limit, 10)
 		}
 		st := ""
@@ -150,7 +150,7 @@ func (s Sel) Spec() val.V {
 		return m("|", l)
 	case "rec":
 		var lim val.V
-		if s.Limit >= 0 {
+		if s.Limit != -1 {
 			lim = m("depth", val.MkInt(s.Limit))
 		} else {
 			lim = m("none", val.MkMap())
